@@ -14,6 +14,9 @@
       unless the signature was made by that certificate's key pair over these octets with this digest
       ("under no other entity's certificate", whichever entity's backend does the checking), and `true`
       when it was and the algorithm has a signer entry;
+    * verdict of the library's RECEIVING path (a receiver whose metadata publishes, for the issuer the
+      caller claims to be, the certificates `pub own` in that order) on a produced signature, when the
+      harness asked for it: accepted iff the caller's certificate is among the published ones;
     * verification without a certificate, refusals, crashes, set-up results: not constrained.
 -/
 import PysamlModel.Model.Signer
@@ -26,8 +29,9 @@ inductive Obs (κ : Type) where
   | refused
   | crashed
   /-- the keys of the universe (in universe order, repetitions kept) under which the signature in
-      the URL verifies for the `SigAlg` and octets the URL itself carries -/
-  | signed (verifiers : List κ)
+      the URL verifies for the `SigAlg` and octets the URL itself carries; `accepted` = verdict of a real
+      receiver (`parse_authn_request` / `parse_logout_request`) if one was asked -/
+  | signed (verifiers : List κ) (accepted : Option Bool)
   | verified (ok : Bool)
   | setupDone
 deriving DecidableEq, Repr
@@ -41,19 +45,35 @@ def setupContent : Op κ α μ → Option κ
 def certUniverse (threads : List (Thread κ α μ)) (extra : List κ) : List κ :=
   threads.flatMap (fun th => th.key :: th.prog.filterMap setupContent) ++ extra
 
-def observeEvent (univ : List κ) : Event κ α μ → Obs κ
+/-- Key of the entity thread `t` acts for when it carries out its operation `i`. -/
+def ownAt (threads : List (Thread κ α μ)) (t i : Nat) : Option κ :=
+  threads[t]?.map (fun th => keyAfter th.key (th.prog.take i))
+
+/-- `pub` = what the receiver's metadata publishes per issuer (`none`: no receiver in this run).  The
+    receiver tries the signature against every published certificate of the claimed issuer
+    (`Request._do_redirect_sig_check`: `any(verify_redirect_signature(…, cert) for cert in certs)`). -/
+def observeEvent (univ : List κ) (pub : Option (κ → List κ)) (own : Option κ) : Event κ α μ → Obs κ
   | .refused => .refused
   | .crashed => .crashed
-  | .signed alg msg s => .signed (univ.filter (fun k => verifies k alg msg s))
+  | .signed alg msg s =>
+      .signed (univ.filter (fun k => verifies k alg msg s))
+        (match pub, own with
+         | some f, some o => some ((f o).any (fun k => verifies k alg msg s))
+         | _, _ => none)
   | .verified ok => .verified ok
   | .setupDone => .setupDone
 
-def observe (univ : List κ) (out : List (Nat × Nat × Event κ α μ)) : List (Nat × Nat × Obs κ) :=
-  out.map (fun p => (p.1, p.2.1, observeEvent univ p.2.2))
+def observe (threads : List (Thread κ α μ)) (univ : List κ) (pub : Option (κ → List κ))
+    (out : List (Nat × Nat × Event κ α μ)) : List (Nat × Nat × Obs κ) :=
+  out.map (fun p => (p.1, p.2.1, observeEvent univ pub (ownAt threads p.1 p.2.1) p.2.2))
 
 /-- The property for the result of operation `op` carried out for the entity with key `own`. -/
-def specOp (tb : Tables α) (own : κ) : Op κ α μ → Obs κ → Bool
-  | .sign _ _, .signed vs => vs.contains own && vs.all (fun k => decide (k = own))
+def specOp (tb : Tables α) (pub : Option (κ → List κ)) (own : κ) : Op κ α μ → Obs κ → Bool
+  | .sign _ _, .signed vs acc =>
+      vs.contains own && vs.all (fun k => decide (k = own)) &&
+      (match pub, acc with
+       | some f, some a => a == (f own).contains own
+       | _, _ => true)
   | .sign _ _, .refused => true
   | .sign _ _, .crashed => true
   | .verify alg msg sig (some c) _, .verified ok =>
@@ -64,15 +84,17 @@ def specOp (tb : Tables α) (own : κ) : Op κ α μ → Obs κ → Bool
   | .setup _ _, .crashed => true
   | _, _ => false
 
-def specEntry (tb : Tables α) (threads : List (Thread κ α μ)) (p : Nat × Nat × Obs κ) : Bool :=
+def specEntry (tb : Tables α) (pub : Option (κ → List κ)) (threads : List (Thread κ α μ))
+    (p : Nat × Nat × Obs κ) : Bool :=
   match threads[p.1]? with
   | none => false
   | some th =>
     match th.prog[p.2.1]? with
     | none => false
-    | some op => specOp tb (keyAfter th.key (th.prog.take p.2.1)) op p.2.2
+    | some op => specOp tb pub (keyAfter th.key (th.prog.take p.2.1)) op p.2.2
 
-def specOk (tb : Tables α) (threads : List (Thread κ α μ)) (obs : List (Nat × Nat × Obs κ)) : Bool :=
-  obs.all (specEntry tb threads)
+def specOk (tb : Tables α) (pub : Option (κ → List κ)) (threads : List (Thread κ α μ))
+    (obs : List (Nat × Nat × Obs κ)) : Bool :=
+  obs.all (specEntry tb pub threads)
 
 end Signer
